@@ -22,6 +22,7 @@ import (
 
 	"github.com/AdguardTeam/AdGuardDNS/internal/agd"
 	"github.com/AdguardTeam/AdGuardDNS/internal/agdtest"
+	"github.com/AdguardTeam/AdGuardDNS/internal/dnsmsg"
 	"github.com/AdguardTeam/AdGuardDNS/internal/dnsserver"
 	"github.com/AdguardTeam/AdGuardDNS/internal/dnssvc/internal/preservice"
 	"github.com/AdguardTeam/AdGuardDNS/internal/filter"
@@ -199,16 +200,33 @@ func vc11pKeys(m map[string]bool) (keys []string) {
 
 func TestVerifC11Preservice(t *testing.T) {
 	st := vstat.New("C11", "preservice.txt",
-		"rapid histories through preservice.Middleware over a real hashprefix.Matcher with two storages (general and adult "+
+		"rapid histories through preservice.Middleware (one shared production cloner and constructor, every response disposed of after judging) over a real hashprefix.Matcher with two storages (general and adult "+
 			"suffix): lists over a 10-name pool containing a prefix twin and names whose digests start with 0000 and ffff, questions (TXT and other types; 1-5 prefix labels "+
 			"pool/legacy/other/malformed; hosts under and outside the suffixes; mixed-case question names), storage resets; "+
 			"non-trivial = TXT query under a suffix with a non-empty expected answer; distinct by (suffix, prefixes, expected)",
 		"txt-answer-nonempty", "txt-answer-empty", "txt-answer-two-names-one-prefix", "txt-legacy8", "txt-refused",
 		"txt-outside-suffix-forwarded", "non-txt-forwarded", "txt-answer-after-reset",
-		"txt-repeated-prefix-with-zero-hash-listed")
+		"txt-repeated-prefix-with-zero-hash-listed", "txt-no-match-after-disposed-match",
+		"txt-no-match-after-disposed-other-txt")
 	st.Finish(t)
 
-	msgs := agdtest.NewConstructor(t)
+	// One production cloner and constructor for the whole stack, as in cmd;
+	// every written response is disposed of after it has been judged, as the
+	// plain-DNS and DoT servers do, so records are recycled between queries.
+	cloner := agdtest.NewCloner()
+	msgs, err := dnsmsg.NewConstructor(&dnsmsg.ConstructorConfig{
+		Cloner:              cloner,
+		BlockingMode:        &dnsmsg.BlockingModeNullIP{},
+		StructuredErrors:    agdtest.NewSDEConfig(true),
+		FilteredResponseTTL: agdtest.FilteredResponseTTL,
+		EDEEnabled:          true,
+	})
+	if err != nil {
+		t.Fatalf("harness: %v", err)
+	}
+
+	// pooled describes the TXT strings of the response disposed of last.
+	pooled := ""
 	suffixes := []string{filter.GeneralTXTSuffix, filter.AdultBlockingTXTSuffix}
 	baseCtx := dnsserver.ContextWithRequestInfo(context.Background(), &dnsserver.RequestInfo{StartTime: time.Now()})
 	baseCtx = dnsserver.ContextWithServerInfo(baseCtx, &dnsserver.ServerInfo{})
@@ -234,13 +252,24 @@ func TestVerifC11Preservice(t *testing.T) {
 		}
 
 		nextCalls := 0
+		var nextResp *dns.Msg
 		next := dnsserver.HandlerFunc(func(ctx context.Context, rw dnsserver.ResponseWriter, req *dns.Msg) error {
 			nextCalls++
-			resp := (&dns.Msg{}).SetReply(req)
-			resp.Answer = append(resp.Answer, &dns.TXT{
-				Hdr: dns.RR_Header{Name: req.Question[0].Name, Rrtype: dns.TypeTXT, Class: dns.ClassINET, Ttl: 1},
-				Txt: []string{vc11pNextMarker},
-			})
+
+			// Other response kinds from the same constructor: a TXT record
+			// with a marker for TXT questions, NXDOMAIN with a SOA otherwise.
+			var resp *dns.Msg
+			if req.Question[0].Qtype == dns.TypeTXT {
+				var nerr error
+				resp, nerr = msgs.NewRespTXT(req, vc11pNextMarker)
+				if nerr != nil {
+					return nerr
+				}
+			} else {
+				resp = msgs.NewRespRCode(req, dns.RcodeNameError)
+			}
+
+			nextResp = resp
 
 			return rw.WriteMsg(ctx, req, resp)
 		})
@@ -357,7 +386,7 @@ func TestVerifC11Preservice(t *testing.T) {
 			}
 
 			resp := rw.msgs[0]
-			fromNext := len(resp.Answer) == 1 && strings.Contains(resp.Answer[0].String(), vc11pNextMarker)
+			fromNext := resp == nextResp
 
 			switch {
 			case qt != dns.TypeTXT:
@@ -412,6 +441,12 @@ func TestVerifC11Preservice(t *testing.T) {
 					}
 				} else {
 					classes = append(classes, "txt-answer-empty")
+					switch pooled {
+					case "hashes":
+						classes = append(classes, "txt-no-match-after-disposed-match")
+					case "marker":
+						classes = append(classes, "txt-no-match-after-disposed-other-txt")
+					}
 				}
 
 				if len(labels) > len(prefs) {
@@ -473,6 +508,20 @@ func TestVerifC11Preservice(t *testing.T) {
 					}
 				}
 			}
+
+			// The server returns the written response to the pools.
+			pooled = ""
+			for _, rr := range resp.Answer {
+				if txt, ok := rr.(*dns.TXT); ok && len(txt.Txt) > 0 {
+					pooled = "hashes"
+					if txt.Txt[0] == vc11pNextMarker {
+						pooled = "marker"
+					}
+				}
+			}
+
+			nextResp = nil
+			cloner.Dispose(resp)
 		}
 	})
 }
